@@ -1,17 +1,17 @@
-\* C14 negative control: this deviation alone must break NoViolation
+\* C14 ideal specification (no deviation): every C14 invariant must hold
 SPECIFICATION Spec
 CONSTANTS
   N = 1
-  Catalogue = "domain"
+  Catalogue = "small"
   Relations = {"none"}
-  MaxSet = 1
+  MaxSet = 0
   MaxWrite = 1
   Validates = {FALSE, TRUE}
-  SetClass = "all"
-  MaxEdit = 0
-  MaxAssign = 0
+  SetClass = "none"
+  MaxEdit = 1
+  MaxAssign = 1
   UpdEnabled = {TRUE}
-  Deviations = {"InfTextAsFloat"}
+  Deviations = {}
 VIEW vw
 INVARIANT NoViolation
 INVARIANT PromoteDemote
